@@ -87,15 +87,13 @@ Print Assumptions C27_compile_total.
    side conditions of the match theorem).  Exact hypotheses:
      - the executable static check rewrite_static_ok: the conversion recorded all pattern values at pairwise
        different positions (none of them a rewrite-local value), the rewriter function has as many arguments as
-       record_match hands over positions, and pdl.replace-with-operation occurs only when the root declares result
-       types (evaluated by the harness on every generated and corpus pattern);
+       record_match hands over positions (evaluated by the harness on every generated and corpus pattern);
      - the direct application does not raise.
    Then: if the direct application rewrites the payload into plF, the converted matcher + rewriter produce exactly
    plF (new operations get the same ids in both models, so "up to fresh ids" is plain equality); and if the direct
    pattern does not match, neither does the converted one (and it does not raise).
    Not covered: the case in which the direct rewrite raises (ill-typed rewrites, where the converted path may go on:
-   pdl.result index beyond the declared results, replacement with results for a root without results), and
-   replace-with-operation for a root that declares no result types. *)
+   pdl.result index beyond the declared results, replacement with results for a root without results). *)
 Theorem C27_rewrite_equiv_partial : forall fx P pl x c plF,
   fx_erase fx = true -> fx_range fx = true -> fx_infer fx = true ->
   match_side_conditions fx P pl -> rewrite_static_ok fx P = true ->
@@ -111,6 +109,16 @@ Theorem C27_no_match_equiv : forall fx P pl x c,
 Proof. exact apply_nomatch. Qed.
 Print Assumptions C27_no_match_equiv.
 
+(* ... and with every repair present (the current tree): only static, executable conditions on the pattern remain *)
+Theorem C27_rewrite_equiv_repaired : forall P pl x c seen',
+  lin_op (p_root P) [] = Some seen' -> idx_op false (p_root P) ->
+  rewrite_static_ok repaired P = true -> compile_guarded repaired P = true ->
+  find_op pl (o_id x) = Some x -> compile repaired P = Some c ->
+  (forall plF, pdl_apply repaired P pl (o_id x) = ROk plF -> interp_apply repaired c pl (o_id x) = ROk plF) /\
+  (pdl_apply repaired P pl (o_id x) = RNoMatch -> interp_apply repaired c pl (o_id x) = RNoMatch).
+Proof. exact rewrite_equiv_repaired. Qed.
+Print Assumptions C27_rewrite_equiv_repaired.
+
 (* the core of it: statement-by-statement simulation of the generated rewriter function against the direct rewrite,
    for ANY rewriter arguments that are the direct bindings of the values they translate *)
 Theorem C27_rewriter_simulates_direct_rewrite :
@@ -125,7 +133,7 @@ Theorem C27_rewriter_simulates_direct_rewrite :
   klookup e0 (KOp (op_id rootpat)) = Some (OOp pid) ->
   forall l st stF code e regs pl plF,
   Inv inp e0 regs0 e st regs -> gen_stmts fx P inp rootpat st l = Some (stF, code) -> pre (rg_used stF) usedF ->
-  (op_rtys rootpat <> [] \/ Forall (fun s => match s with SReplaceOp _ => False | _ => True end) l) ->
+  RI rootpat pid pl ->
   run_rw fx pid l e pl = ROk plF ->
   run_rewriter fx pid (code ++ [RFinalize]) regs pl = ROk plF.
 Proof. exact stmts_sim. Qed.
